@@ -76,6 +76,27 @@ def run(ctx, crate):
                                   "Err arm of a match on io::Result reaches a panic edge at bb%s" % pb, cfg)
     ctx.floor(rule, n_results, 18, cfg, "io::Result-valued call results in library code")
 
+    # ---- R-IO-REPORTED (a): inside a fn that itself returns io::Result, no io::Result is swallowed ------
+    rule = "R-IO-REPORTED"
+    n_rep = 0
+    for b in bodies:
+        if b.kind == "Closure" or not K.is_plain_io_result(b.locals[0]):
+            continue
+        for c in b.calls():
+            if c.matches(K.TRY_BRANCH, K.FROM_RESIDUAL):
+                continue
+            d = c.dest
+            if d["p"] or not K.is_plain_io_result(b.locals[d["l"]]):
+                continue
+            if c.matches(r"std::result::Result::<T, E>::.*", r"std::result::Result::Ok", r"std::result::Result::Err"):
+                continue
+            n_rep += 1
+            verdict, how = reported(b, d["l"], 0)
+            key = "reported:%s#%d" % (c.path, sum(1 for x in b.calls() if x.path == c.path and x.bb < c.bb))
+            ctx.check(verdict, rule, key, b.name, c.loc(), "io::Result of %s reaches the caller (%s)" % (c.path, how),
+                      "io::Result of %s is swallowed inside a function that returns io::Result: %s" % (c.path, how), cfg)
+    ctx.floor(rule, n_rep, 20, cfg, "io::Result-valued call results inside io::Result-returning fns")
+
     # ---- R-ERR-EXIT-PURE ----------------------------------------------------------------------
     rule = "R-ERR-EXIT-PURE"
     n_try = 0
@@ -167,6 +188,27 @@ def run(ctx, crate):
             ctx.check(not bad, rule, key, b.name, dc.loc(),
                       "every value stored to the return slot after the call derives from its result",
                       "return value assigned at %s after calling %s does not derive from its io::Result (error swallowed)" % (bad, dc.path), cfg)
+
+
+ERR_PRESERVING = r"std::result::Result::<T, E>::(map|and_then|inspect|inspect_err|map_err|and)"
+
+
+def reported(b, l, depth):
+    """Does the io::Result in local l reach the caller on its Err side? `?`, the return slot, or an
+    Err-preserving combinator whose own result does."""
+    v, how = consumption(b, l, set())
+    if v in ("propagated", "returned"):
+        return True, how
+    if v == "passed" and depth < 4:
+        for c in b.calls():
+            if c.args and operand_local(c.args[0]) == l and not c.args[0]["place"]["p"] and c.matches(ERR_PRESERVING):
+                if c.dest["p"]:
+                    return False, "result of %s stored into a projection" % c.path
+                ok, h2 = reported(b, c.dest["l"], depth + 1)
+                return ok, "%s, then %s" % (K.meth(c.path), h2)
+        if how == "matched (Err arm checked separately)":
+            return True, how
+    return False, how
 
 
 def producer_of(b, trycall):
